@@ -495,3 +495,15 @@ package bsonkit
 //@   ensures [C03,C15 name=fresh-copy] result != nil && fresh(result) && result.btree != nil && fresh(result.btree) && ghost.tree[result.btree] == old(ghost.tree)[i.btree]
 //@   ensures [C03,C15 name=others-kept] all(t, Ref, imp(t != result.btree, ghost.tree[t] == old(ghost.tree)[t]))
 //@   ensures [C07 name=same-uniqueness] result.unique == i.unique
+
+// lists.go, Collect with distinct: after sorting, a value is kept exactly when it
+// differs (BSON comparison) from the value kept before it, so no two neighbours
+// of the returned list are equal; on a sorted list that is "each value once".
+//@ func Collect
+//@   tags C13
+//@   uses order wf
+//@   opt loopframe = on
+//@   locals distincts prevValue value
+//@   ensures [C13 name=no-equal-neighbours] imp(distinct, forall(k, 1, len(result), imp(spec.witness(k), spec.cmp(result[k - 1], result[k]) != 0)))
+//@   loop 1 invariant imp(len(distincts) > 0, prevValue == distincts[len(distincts) - 1])
+//@   loop 1 invariant forall(k, 1, len(distincts), imp(spec.witness(k), spec.cmp(distincts[k - 1], distincts[k]) != 0))
